@@ -80,6 +80,10 @@ def build_mmt(rng, gen):
     e_a = gen.expr([s1, p1], 2)
     e_b = gen.expr([s1, p2], 2)
     e_a3 = gen.expr([s1, s3], 2)
+    # a variable that reads the derivative of a state (dot(x) inside an expression), own component or foreign
+    probe = rng.random() < 0.6
+    probe_def = f"rate_probe = 2 * dot({s1}) + dot(gate.{s3})\n    in [mV/ms]\n" if probe else ""
+    probe_use = " + 0.01 * rate_probe" if probe else ""
     text = f"""[[model]]
 name: generated
 # Initial values
@@ -98,7 +102,7 @@ dot({s1}) = -{inter} + gate.{s2} * {p2} - {s1} * 0.5
 {inter} = {mmt_expr(e_inter).replace(s2, 'gate.' + s2).replace(s3, 'gate.' + s3).replace(p1, 'gate.' + p1)}
 {p2} = 2.5
     in [mS/uF]
-dot(w_dup) = -w_dup + {s1} * 0.1
+{probe_def}dot(w_dup) = -w_dup + {s1} * 0.1{probe_use}
 
 [gate]
 use memb.{s1} as {s1}
@@ -152,7 +156,7 @@ def compare_with_myokit(rep, model, protocol, label, text=None, perturb=2, rng=N
             rep.violation(f"{label}: constant {v.qname()} does not appear under its unique name {gname(v)}", replay)
             return None
     # ---- no dangling reference (hypothesis of the renaming theorem)
-    known = set(gs) | set(gp) | {a.name for a in ode.intermediates} | {"time", "t"}
+    known = set(gs) | set(gp) | {a.name for a in ode.intermediates} | {a.name for a in ode.state_derivatives} | {"time", "t"}
     for a_ in ode.intermediates + ode.state_derivatives:
         free = {str(s) for s in a_.expr.free_symbols}
         if not free <= known:
@@ -203,28 +207,28 @@ def compare_with_myokit(rep, model, protocol, label, text=None, perturb=2, rng=N
     return o2, m2
 
 
-def back_to_myokit(rep, ode, label, src_model=None):
+def back_to_myokit(rep, ode, label, src_model=None, text=None):
     with warnings.catch_warnings():
         warnings.simplefilter("ignore")
         try:
             mm = gotran_to_myokit(ode)
         except Exception as ex:  # noqa: BLE001
             key = "C15-nary-connectives-not-readable-by-myokit" if (isinstance(ex, TypeError) and ".__init__() takes 3 positional arguments" in str(ex)) else None
-            rep.violation(f"{label}: gotran_to_myokit raises {type(ex).__name__}: {str(ex)[:120]}", {"kind": "direct", "label": label}, finding_key=key)
+            rep.violation(f"{label}: gotran_to_myokit raises {type(ex).__name__}: {str(ex)[:120]}", {"kind": "direct", "label": label, "text": text}, finding_key=key)
             return
     vals = {v.name(): v for v in mm.variables(deep=True)}
     for s in ode.states:
         v = vals.get(s.name)
         if v is None or not v.is_state() or not math.isclose(float(v.initial_value(as_float=True)), float(s.value), rel_tol=1e-12):
-            rep.violation(f"{label}: converted back to Myokit, state {s.name} (initial value {s.value}) is lost or changed", {"kind": "direct", "label": label})
+            rep.violation(f"{label}: converted back to Myokit, state {s.name} (initial value {s.value}) is lost or changed", {"kind": "direct", "label": label, "text": text})
             return
         if s.unit_str and v.unit() is None:
-            rep.violation(f"{label}: converted back to Myokit, the unit {s.unit_str!r} of {s.name} is lost", {"kind": "direct", "label": label})
+            rep.violation(f"{label}: converted back to Myokit, the unit {s.unit_str!r} of {s.name} is lost", {"kind": "direct", "label": label, "text": text})
             return
     for p_ in ode.parameters:
         v = vals.get(p_.name)
         if v is None or not math.isclose(float(v.eval()), float(p_.value), rel_tol=1e-12):
-            rep.violation(f"{label}: converted back to Myokit, parameter {p_.name} = {p_.value} is lost or changed", {"kind": "direct", "label": label})
+            rep.violation(f"{label}: converted back to Myokit, parameter {p_.name} = {p_.value} is lost or changed", {"kind": "direct", "label": label, "text": text})
             return
     # derivatives of the back-converted model vs the gotranx rhs
     code = impl.gen_python(ode)
@@ -241,7 +245,7 @@ def back_to_myokit(rep, ode, label, src_model=None):
     for v, want in zip(mm.states(), md):
         got = float(rv[ns["state_index"](v.name())])
         if not (math.isclose(got, want, rel_tol=1e-8, abs_tol=1e-12) or (got != got and want != want)):
-            rep.violation(f"{label}: converted back to Myokit, d{v.name()}/dt evaluates to {want!r}; the gotranx rhs gives {got!r}", {"kind": "direct", "label": label})
+            rep.violation(f"{label}: converted back to Myokit, d{v.name()}/dt evaluates to {want!r}; the gotranx rhs gives {got!r}", {"kind": "direct", "label": label, "text": text})
             return
     rep.count("back_conversions_compared")
 
@@ -321,13 +325,13 @@ def main(argv=None):
         ode, _, err, _ = impl.load_text(text)
         if err is not None:
             continue
-        core.guarded(rep, text, back_to_myokit, rep, ode, f".ode text #{i}")
+        core.guarded(rep, text, back_to_myokit, rep, ode, f".ode text #{i}", None, text)
         rep.case(key=text, nontrivial=True)
     return rep.finish(
         level="proof",
         rule="the shipped example.mmt and noble_1962.cellml (ToRORd in the thorough tier); generated .mmt models with two components, aliases, "
              "variables nested under two different states with the same local names, names that clash with sympy names (beta, gamma, E, I, S, N, ...), "
-             "if(...) and all operators; .ode-text models converted to Myokit; derivatives compared at the initial state and 2 perturbed states",
+             "if(...), dot(x) read inside expressions and all operators; .ode-text models (whose intermediates may read state derivatives) converted to Myokit; derivatives compared at the initial state and 2 perturbed states",
         trusted_base=["Coq 8.16.1 kernel (the renaming model is partial)", "Myokit's parser, evaluator (evaluate_derivatives), unit system and sympy writer are oracles"],
         assumptions=["relative tolerance 1e-8 between Myokit's evaluation and the generated numpy rhs"],
     )
